@@ -362,3 +362,27 @@ def post_scrub_unique(r):
 def post_scrub_flattens(r):
     """nested lists/tuples of AnsiSetting objects are flattened in order, texts unchanged"""
     return texts(r.result) == texts(collect_settings(r.old_settings, []))
+
+
+# ------------------------------------------------------------------------------------------ V5
+def copy_source(r):
+    s = r.old_s
+    if isinstance(s, str):
+        return s._s
+    return s
+
+
+def post_copy_same_value(r):
+    """AnsiString(src) / copy(): same text, structurally equal table (same setting objects, same order)"""
+    return same_value(r.self, copy_source(r))
+
+
+def post_copy_separate(r):
+    src = r.s
+    if isinstance(src, str):
+        src = src._s
+    return separate(r.self, src) and owns_lists(r.self)
+
+
+def post_copy_result_same_value(r):
+    return same_value(r.result, r.old_self) and separate(r.result, r.self) and owns_lists(r.result)
